@@ -117,31 +117,37 @@ Definition NUL_ENC : str := [PCT; 48; 48].   (* "%00" *)
 
 Definition uri_path (uri : str) : str := unquote (take_until QM uri).
 
-Definition prepare_context (c : config) (r : rp) (uri : str) : ctx :=
-  if mem_N 0 uri || contains NUL_ENC uri then no_match else
-  let path := uri_path uri in
+(* the lookup value: the segment without the configured in-segment prefix and suffix *)
+Definition extract_value (r : rp) (seg : str) : str :=
+  let v0 := skipn (length (ph_pre r)) seg in
+  if is_nil (ph_suf r) then v0 else firstn (length v0 - length (ph_suf r)) v0.
+
+(* `if self._extract_lookup_value:` block; segs1 = segments after the configured prefix segments *)
+Definition match_lookup (c : config) (r : rp) (segs1 : list str) : ctx :=
+  match segs1 with
+  | [] => no_match
+  | seg :: segs2 =>
+      if negb (starts_with (ph_pre r) seg && ends_with (ph_suf r) seg) then no_match else
+      match strip_segs (suf_segs r) segs2 with
+      | None => no_match
+      | Some rest =>
+          let v := extract_value r seg in
+          if is_nil v then no_match else finish c (Some v) rest
+      end
+  end.
+
+(* everything after the NUL test and the decoding *)
+Definition match_path (c : config) (r : rp) (path : str) : ctx :=
   if eqb_str path [SL] && list_str_eqb (pre_segs r) [[]] && negb (extract r) && c_filemode c
   then {| matches := true; raw_value := None; extra_path := None |}
   else
     match strip_segs (pre_segs r) (split_on SL path) with
     | None => no_match
-    | Some segs1 =>
-        if extract r then
-          match segs1 with
-          | [] => no_match
-          | seg :: segs2 =>
-              if negb (starts_with (ph_pre r) seg && ends_with (ph_suf r) seg) then no_match else
-              match strip_segs (suf_segs r) segs2 with
-              | None => no_match
-              | Some rest =>
-                  let v0 := skipn (length (ph_pre r)) seg in
-                  let v := if is_nil (ph_suf r) then v0
-                           else firstn (length v0 - length (ph_suf r)) v0 in
-                  if is_nil v then no_match else finish c (Some v) rest
-              end
-          end
-        else finish c None segs1
+    | Some segs1 => if extract r then match_lookup c r segs1 else finish c None segs1
     end.
+
+Definition prepare_context (c : config) (r : rp) (uri : str) : ctx :=
+  if mem_N 0 uri || contains NUL_ENC uri then no_match else match_path c r (uri_path uri).
 
 (* ---------------- TFTP: _rewrite_filename_if_needed ---------------- *)
 Definition rewrite_filename (old_2f : bool) (f : str) : str :=
